@@ -8,6 +8,20 @@ func rtSeed(seed uint64, sched, yield uint32) {
 	runtime.VerifSimSeed(seed)
 	runtime.VerifSimSched(sched)
 	runtime.VerifSimYieldProb(yield)
+	runtime.VerifNonBubbleReset()
+}
+
+// rtNonBubble reports how many times a goroutine outside the bubble was made
+// runnable during the run, and which ones (start function names).
+func rtNonBubble() (uint64, string) {
+	n, _, pcs := runtime.VerifNonBubble()
+	var names string
+	for i := 0; i < len(pcs) && uint64(i) < n; i++ {
+		if f := runtime.FuncForPC(pcs[i]); f != nil {
+			names += f.Name() + ";"
+		}
+	}
+	return n, names
 }
 
 var lastSpin uint64
@@ -15,5 +29,10 @@ var lastSpin uint64
 func rtSpinReset()              { lastSpin = runtime.VerifSpinReset() }
 func rtSpinBreaks() uint64      { return lastSpin }
 func rtTrace() (uint64, uint64) { return runtime.VerifTrace() }
+
+func rtDraws() (uint64, uint64) { return runtime.VerifDraws() }
+
+func rtEvLogOn()        { runtime.VerifEvLogOn() }
+func rtEvLog() []uint64 { return runtime.VerifEvLog() }
 
 const rtEnabled = true
